@@ -27,6 +27,11 @@ type Deck struct {
 	// RelsInfraFirst: /_rels/.rels lists the officeDocument relationship last and
 	// presentation.xml.rels lists slideMaster / theme / props before the slides
 	RelsInfraFirst bool
+	// RelsInfraMixed: the other relationships are interleaved with the part relationships (one
+	// after every part relationship while there are any), and /_rels/.rels lists officeDocument in the middle
+	RelsInfraMixed bool
+	// Strict: the ISO/IEC 29500 Strict conformance class (purl.oclc.org namespaces and relationship types)
+	Strict bool
 	// Spelling of presentation.xml, its relationships and /_rels/.rels
 	Sp Spelling
 }
@@ -106,10 +111,27 @@ func (d *Deck) Members() []Member {
 			mem("ppt/tableStyles.xml", xmlDecl+`<a:tblStyleLst xmlns:a="`+nsA+`" def="{5C22544A-7EE6-4342-B048-85BDC9FD1C3A}"/>`),
 			mem("docProps/core.xml", corePropsXML("deck")), mem("docProps/app.xml", appPropsXML("verif")))
 	}
-	if d.RelsInfraFirst {
+	if d.RelsInfraFirst || d.RelsInfraMixed {
 		n := len(rel)
-		rels = append(append([]Rel{}, rels[n:]...), rels[:n]...)
-		root = append(append([]Rel{}, root[1:]...), root[0])
+		parts, others := rels[:n], rels[n:]
+		if d.RelsInfraFirst {
+			rels = append(append([]Rel{}, others...), parts...)
+			root = append(append([]Rel{}, root[1:]...), root[0])
+		} else {
+			rels = nil
+			for i, pr := range parts {
+				rels = append(rels, pr)
+				if i < len(others) {
+					rels = append(rels, others[i])
+				}
+			}
+			if len(others) > len(parts) {
+				rels = append(rels, others[len(parts):]...)
+			}
+			if len(root) > 2 {
+				root = []Rel{root[1], root[0], root[2]}
+			}
+		}
 	}
 	infra := []Member{
 		mem("[Content_Types].xml", contentTypesXML(ov)),
@@ -135,5 +157,5 @@ func (d *Deck) Members() []Member {
 		// independent of where the slide part lives
 		parts = append(parts, mem(relsPathFor(s.PartName), relsXML([]Rel{{"rId1", relBase + "slideLayout", "/ppt/slideLayouts/slideLayout1.xml"}})))
 	}
-	return order(infra, parts, d.InfraFirst)
+	return strictify(order(infra, parts, d.InfraFirst), d.Strict)
 }
